@@ -140,6 +140,17 @@ class YPCodeProgram:
         return generator.generate_program(self)
 
 
+class _CutIf:
+    '''Internal pseudo goal: leave the breakable block with this label. Only the compiler
+    creates it; a source predicate, whatever its name, is never taken for it.'''
+    def __init__(self,label):
+        self.label = label
+    @property
+    def variables(self):
+        return []
+    def __str__(self):
+        return f'$CUTIF({self.label})'
+
 class YPPrologCompiler:
     def __init__(self,context):
         self.context = context
@@ -210,17 +221,16 @@ class YPPrologCompiler:
         self._debug(f'---- Body: {body} :: {body!r}')
         if isinstance(body,ConjunctionPredicate):
             # if A is simple
-            if isinstance(body.lhs,Predicate):
-                if body.lhs.functor.name.value == '$CUTIF':
-                    self._debug("------ case: $CUTIF, A")
-                    label = body.lhs.functor.args[0].value
-                    code_a = self.compile_body(body.rhs)
-                    code_b = [ YPCodeBreakBlock(label) ]
-                    return code_a + code_b
-                else:
-                    self._debug("------ case: A,B")
-                    coderhs = self.compile_body(body.rhs)
-                    return self.compile_predicate(body.lhs, coderhs)
+            if isinstance(body.lhs,_CutIf):
+                self._debug("------ case: $CUTIF, A")
+                label = body.lhs.label
+                code_a = self.compile_body(body.rhs)
+                code_b = [ YPCodeBreakBlock(label) ]
+                return code_a + code_b
+            elif isinstance(body.lhs,Predicate):
+                self._debug("------ case: A,B")
+                coderhs = self.compile_body(body.rhs)
+                return self.compile_predicate(body.lhs, coderhs)
             elif isinstance(body.lhs,CutPredicate):
                 self._debug("------ case: (!,A) => A [yieldBreak]")
                 code_a = self.compile_body(body.rhs)
@@ -294,7 +304,7 @@ class YPPrologCompiler:
                         ConjunctionPredicate(
                             body.lhs.condition,
                             ConjunctionPredicate(
-                                Predicate(Functor(Atom("$CUTIF"),[Atom(cut_if_label)])),
+                                _CutIf(cut_if_label),
                                 body.lhs.action
                             )
                         ),
@@ -312,13 +322,12 @@ class YPPrologCompiler:
             self._debug("------ case: [A  =>  A, true]  A -> T => (A -> T), true")
             return self.compile_body(ConjunctionPredicate(body, TruePredicate()))
         # :- functor(...)   A => A, true
+        elif isinstance(body,_CutIf):
+            self._debug("------ case: $CUTIF", body.label)
+            return [ YPCodeBreakBlock(body.label) ]
         elif isinstance(body,Predicate):
-            if body.functor.name.value == '$CUTIF':
-                self._debug("------ case: $CUTIF", body.functor.args)
-                return [ self.YPCodeBreakBlock(body.functor.args[0].value) ]
-            else:
-                self._debug("------ case: [A  =>  A, true]  A => A, true")
-                return self.compile_body(ConjunctionPredicate(body, TruePredicate()))
+            self._debug("------ case: [A  =>  A, true]  A => A, true")
+            return self.compile_body(ConjunctionPredicate(body, TruePredicate()))
         elif isinstance(body,NegationPredicate):
             self._debug("------ case: [A  =>  A, true]  (\\+ A) => (\\+ A), true")
             return self.compile_body(ConjunctionPredicate(body, TruePredicate()))
